@@ -2521,3 +2521,415 @@ func rulePosConcatFirst(c *Ctx) []Obligation {
 	}
 	return []Obligation{ok(R, con, c.Pos(fn.Pos()), fmt.Sprintf("%d returns after the loop's fetches, each of the token fetched in front of the loop", n))}
 }
+
+// ---------------------------------------------------------------- seed wave 13: ERR.WALKALL, ERR.LOOPKEEP, ID.RESETALL
+
+func init() {
+	register(&Rule{Name: "ERR.WALKALL", Props: []string{"C04", "C01"}, Floor: 1,
+		Doc: "the walk that collects the errors recorded in a tree stops at nothing but a nil entry: no other test (an entry without a node, made on demand by a lookup, is an entry) ends it in front of the children and the entry's own errors",
+		Run: ruleErrWalkAll})
+	register(&Rule{Name: "ERR.LOOPKEEP", Props: []string{"C04", "C11"}, Floor: 1,
+		Doc: "a list of errors that a call hands back inside a loop is taken over (appended, or handed to a function) in the iteration that got it: it is not parked in a variable that the next iteration overwrites",
+		Run: ruleErrLoopKeep})
+	register(&Rule{Name: "ID.RESETALL", Props: []string{"C18", "C11"}, Floor: 1,
+		Doc: "the reset of the identities' value lists at the start of a run reaches every loaded module and submodule: the loop over a table of modules that clears them skips no entry on account of its key",
+		Run: ruleIDResetAll})
+}
+
+func ruleErrWalkAll(c *Ctx) []Obligation {
+	const R = "ERR.WALKALL"
+	fn := c.Fn("yang.(*Entry).checkErrors")
+	con := "checkErrors: only a nil entry ends the walk"
+	if fn == nil || len(fn.Params) == 0 {
+		return []Obligation{undecided(R, con, "-", "(*Entry).checkErrors not found")}
+	}
+	recv := fn.Params[0]
+	// every return that is reached without the children having been ranged over and the own errors handed on: the
+	// conditions that lead there test the receiver against nil and nothing else
+	var ranges []*ssa.BasicBlock
+	eachInstr(fn, func(in ssa.Instruction) {
+		if _, isR := in.(*ssa.Range); isR {
+			ranges = append(ranges, in.Block())
+		}
+	})
+	if len(ranges) == 0 {
+		return []Obligation{undecided(R, con, c.Pos(fn.Pos()), "the walk ranges over nothing")}
+	}
+	for _, b := range fn.Blocks {
+		rt, isR := b.Instrs[len(b.Instrs)-1].(*ssa.Return)
+		if !isR {
+			continue
+		}
+		early := true
+		for _, rb := range ranges {
+			if rb.Dominates(b) || blockReaches(rb, b, nil) {
+				early = false
+			}
+		}
+		if !early {
+			continue
+		}
+		for _, g := range guardsAt(b) {
+			x, _, okn := nilTest(g.Cond)
+			isRecv := okn && (x == ssa.Value(recv) || func() bool {
+				if ld, isL := x.(*ssa.UnOp); isL {
+					if a, isA := ld.X.(*ssa.Alloc); isA && spilledParam(a) == recv {
+						return true
+					}
+				}
+				return false
+			}())
+			if isRecv {
+				continue
+			}
+			// an || of tests: each operand that is not the receiver's nil test ends the walk for a live entry
+			return []Obligation{bad(R, con, c.InstrPos(rt), "the walk also ends on a test that is not `entry == nil` ("+c.InstrPos(g.If)+"): an entry for which it holds — the input or output a lookup makes on demand has no node — keeps the errors recorded on it and below it, and Process answers clean")}
+		}
+		// a materialised `e == nil || other`: the guard is the phi
+		for _, p := range b.Preds {
+			if ifi, isIf := p.Instrs[len(p.Instrs)-1].(*ssa.If); isIf {
+				if bo, isB := ifi.Cond.(*ssa.BinOp); isB {
+					if x, _, okn := nilTest(bo); okn && x != ssa.Value(recv) {
+						if _, f, _ := loadedField(x); f != nil {
+							return []Obligation{bad(R, con, c.InstrPos(rt), "the walk also ends when "+f.Name()+" of the entry is nil ("+c.InstrPos(ifi)+"): the input or output a lookup makes on demand has no node — the errors recorded on it and below it are never collected, and Process answers clean")}
+						}
+					}
+				}
+			}
+		}
+	}
+	return []Obligation{ok(R, con, c.Pos(fn.Pos()), "every return in front of the walk over the children is under `entry == nil` alone")}
+}
+
+func ruleErrLoopKeep(c *Ctx) []Obligation {
+	const R = "ERR.LOOPKEEP"
+	var obs []Obligation
+	var fns []*ssa.Function
+	for _, fn := range c.Funcs {
+		if c.isRepoFn(fn) && fn.Blocks != nil {
+			fns = append(fns, fn)
+		}
+	}
+	sort.Slice(fns, func(i, j int) bool { return fns[i].Pos() < fns[j].Pos() })
+	for _, fn := range fns {
+		n := 0
+		eachInstr(fn, func(in ssa.Instruction) {
+			var list ssa.Value
+			switch x := in.(type) {
+			case *ssa.Call:
+				if isErrorSlice(x.Type()) {
+					list = x
+				}
+			case *ssa.Extract:
+				if isErrorSlice(x.Type()) {
+					if _, isC := x.Tuple.(*ssa.Call); isC {
+						list = x
+					}
+				}
+			}
+			if list == nil {
+				return
+			}
+			h := loopHeaderOf(in.Block())
+			if h == nil {
+				return
+			}
+			if call, isC := in.(*ssa.Call); isC && isAppend(call) {
+				return
+			}
+			// how the list is used
+			taken, parked := false, false
+			for _, r := range refsOf(list) {
+				switch u := r.(type) {
+				case *ssa.Call:
+					taken = true // append(acc, list...) or handed to a function
+					_ = u
+				case *ssa.Return, *ssa.Range, *ssa.IndexAddr, *ssa.Store:
+					taken = true
+				case *ssa.Phi:
+					// carried to the loop header (or beyond): a plain assignment to a variable that lives across
+					// iterations
+					if u.Block() == h || !inLoop(u.Block(), h) {
+						parked = true
+					} else {
+						for _, rr := range refsOf(u) {
+							if p2, isP := rr.(*ssa.Phi); isP && (p2.Block() == h || !inLoop(p2.Block(), h)) {
+								parked = true
+							}
+						}
+					}
+				}
+			}
+			if !parked {
+				return
+			}
+			n++
+			con := fmt.Sprintf("%s: error list #%d got inside a loop is taken over in the same iteration", c.FnName(fn), n)
+			if taken {
+				obs = append(obs, ok(R, con, c.InstrPos(in), "appended or handed on where it is got (and also carried)"))
+			} else {
+				obs = append(obs, bad(R, con, c.InstrPos(in), "the list is only assigned to a variable that lives across the iterations: the next iteration's list (nil when nothing is wrong there) takes its place, and what was wrong with all but the last one is never reported"))
+			}
+		})
+	}
+	if len(obs) == 0 {
+		obs = append(obs, ok(R, "error lists got inside loops", "-", "no list of errors got inside a loop is carried across iterations by plain assignment"))
+	}
+	return obs
+}
+
+// inLoop: b belongs to the natural loop with header h (or to a loop nested in it).
+func inLoop(b, h *ssa.BasicBlock) bool {
+	for x := loopHeaderOf(b); x != nil; {
+		if x == h {
+			return true
+		}
+		if x.Idom() == nil {
+			return false
+		}
+		x = loopHeaderOf(x.Idom())
+	}
+	return b == h
+}
+
+func ruleIDResetAll(c *Ctx) []Obligation {
+	const R = "ID.RESETALL"
+	ri := c.Fn("yang.(*Modules).resolveIdentities")
+	idT := c.Named("yang", "Identity")
+	con := "resolveIdentities: the value lists are cleared for every entry of the module tables"
+	if ri == nil || idT == nil {
+		return []Obligation{undecided(R, con, "-", "resolveIdentities / Identity not found")}
+	}
+	fValues := FieldVar(idT, "Values")
+	var obs []Obligation
+	n := 0
+	for _, mr := range c.mapRanges() {
+		if mr.fn != ri && c.inlineRoot(mr.fn) != ri {
+			continue
+		}
+		// a range over a table of modules in whose body (or a helper called from it) Values is set to nil
+		clears := false
+		for _, b := range mr.fn.Blocks {
+			if !mr.inBody(b) {
+				continue
+			}
+			for _, in := range b.Instrs {
+				if st, isS := in.(*ssa.Store); isS && isNilConst(st.Val) {
+					if _, f, _ := fieldOf(st.Addr); f == fValues {
+						clears = true
+					}
+				}
+				if ci, isC := in.(ssa.CallInstruction); isC {
+					if cal := ci.Common().StaticCallee(); cal != nil && c.isRepoFn(cal) && cal.Blocks != nil {
+						for _, st := range storesToField(cal, fValues) {
+							if isNilConst(st.Val) {
+								clears = true
+							}
+						}
+					}
+				}
+			}
+		}
+		if !clears {
+			continue
+		}
+		n++
+		key, _ := mr.keyVal()
+		con2 := fmt.Sprintf("%s #%d", con, n)
+		skipped := ""
+		if key != nil {
+			for _, b := range mr.fn.Blocks {
+				if !mr.inBody(b) {
+					continue
+				}
+				if ifi, isIf := b.Instrs[len(b.Instrs)-1].(*ssa.If); isIf {
+					usesKey := false
+					operandClosureDeep(ifi.Cond, func(x ssa.Value) {
+						if x == key {
+							usesKey = true
+						}
+					})
+					if usesKey {
+						skipped = c.InstrPos(ifi)
+					}
+				}
+			}
+		}
+		if skipped == "" {
+			obs = append(obs, ok(R, con2, c.InstrPos(mr.rng), "no test of the table's key in the loop that clears"))
+		} else {
+			obs = append(obs, bad(R, con2, c.InstrPos(mr.rng), "the loop that clears the lists tests the key it is at ("+skipped+"): entries filed under another key (name@revision: a revision that a newer one has superseded) keep the lists of the last run, and an identity of a superseded submodule lists what it no longer has"))
+		}
+	}
+	if n == 0 {
+		return []Obligation{undecided(R, con, c.Pos(ri.Pos()), "no loop over a table of modules clears Identity.Values in resolveIdentities")}
+	}
+	return obs
+}
+
+// ---------------------------------------------------------------- NUM.SIGNLAST (seed C15-w13-2)
+
+func init() {
+	register(&Rule{Name: "NUM.SIGNLAST", Props: []string{"C15"}, Floor: 1,
+		Doc: "Number.String puts the minus sign in front of the finished text: the text with the sign is not measured, sliced or padded afterwards (the places of the decimal point and of the padding zeros are counted in digits)",
+		Run: ruleNumSignLast})
+}
+
+func ruleNumSignLast(c *Ctx) []Obligation {
+	const R = "NUM.SIGNLAST"
+	fn := c.Fn("yang.(Number).String")
+	con := "Number.String: the minus sign is put in front of the finished text"
+	if fn == nil {
+		return []Obligation{undecided(R, con, "-", "(Number).String not found")}
+	}
+	var signs []*ssa.BinOp
+	eachInstr(fn, func(in ssa.Instruction) {
+		bo, isB := in.(*ssa.BinOp)
+		if !isB || bo.Op != token.ADD {
+			return
+		}
+		if s, isK := constString(bo.X); isK && s == "-" {
+			signs = append(signs, bo)
+		}
+	})
+	if len(signs) == 0 {
+		return []Obligation{undecided(R, con, c.Pos(fn.Pos()), "no `\"-\" + text` in Number.String")}
+	}
+	var obs []Obligation
+	for _, sg := range signs {
+		// everything the signed text flows into (through joins and further concatenations): no length, no slice
+		seen := map[ssa.Value]bool{}
+		badAt := ""
+		var walk func(v ssa.Value, d int)
+		walk = func(v ssa.Value, d int) {
+			if seen[v] || d > 12 {
+				return
+			}
+			seen[v] = true
+			for _, r := range refsOf(v) {
+				switch x := r.(type) {
+				case *ssa.Phi:
+					walk(x, d+1)
+				case *ssa.BinOp:
+					if x.Op == token.ADD {
+						walk(x, d+1)
+					}
+				case *ssa.Slice:
+					badAt = c.InstrPos(x)
+				case *ssa.Call:
+					if bi, isBi := x.Call.Value.(*ssa.Builtin); isBi && bi.Name() == "len" {
+						badAt = c.InstrPos(x)
+					}
+				case *ssa.Store:
+					if a, isA := x.Addr.(*ssa.Alloc); isA && x.Val == v {
+						for _, rr := range refsOf(a) {
+							if u, isU := rr.(*ssa.UnOp); isU {
+								walk(u, d+1)
+							}
+						}
+					}
+				}
+			}
+		}
+		walk(sg, 0)
+		if badAt == "" {
+			obs = append(obs, ok(R, con, c.InstrPos(sg), "the signed text is only joined and returned"))
+		} else {
+			obs = append(obs, bad(R, con, c.InstrPos(sg), "the text that already has its sign is measured or cut at "+badAt+": the decimal point and the padding zeros are placed one character off for a negative number (-0.5 prints as -.5 or 0.-5) and the text does not parse back"))
+		}
+	}
+	return obs
+}
+
+// ---------------------------------------------------------------- INDENT.EXACTFIT (seed C20-w13-1)
+
+func init() {
+	register(&Rule{Name: "INDENT.EXACTFIT", Props: []string{"C20"}, Floor: 0,
+		Doc: "in the accounting of a short write, an element that got out to its last byte is judged by that byte (does the line end there?): the early answer for an element that got out only in part is taken under `remaining < len(element)`, not `<=`",
+		Run: ruleIndentExactFit})
+}
+
+func ruleIndentExactFit(c *Ctx) []Obligation {
+	const R = "INDENT.EXACTFIT"
+	var obs []Obligation
+	var fns []*ssa.Function
+	for _, fn := range c.Funcs {
+		if fn.Pkg == nil || shortPkg(fn.Pkg.Pkg.Path()) != "indent" || fn.Blocks == nil || !c.isRepoFn(fn) {
+			continue
+		}
+		// functions that answer with the line state: a bool among the results
+		hasBool := false
+		res := fn.Signature.Results()
+		for i := 0; i < res.Len(); i++ {
+			if isBoolType(res.At(i).Type()) {
+				hasBool = true
+			}
+		}
+		if hasBool && res.Len() >= 2 {
+			fns = append(fns, fn)
+		}
+	}
+	sort.Slice(fns, func(i, j int) bool { return fns[i].Pos() < fns[j].Pos() })
+	for _, fn := range fns {
+		n := 0
+		eachInstr(fn, func(in ssa.Instruction) {
+			bo, isB := in.(*ssa.BinOp)
+			if !isB || loopHeaderOf(bo.Block()) == nil {
+				return
+			}
+			lenOf := func(v ssa.Value) bool {
+				call, isC := v.(*ssa.Call)
+				if !isC {
+					return false
+				}
+				bi, isBi := call.Call.Value.(*ssa.Builtin)
+				if !isBi || bi.Name() != "len" || len(call.Call.Args) != 1 {
+					return false
+				}
+				// of an element of the list that is walked (not of the list: that is the walk's own bound)
+				if ld, isL := call.Call.Args[0].(*ssa.UnOp); isL {
+					_, isIA := ld.X.(*ssa.IndexAddr)
+					return isIA
+				}
+				return false
+			}
+			var op token.Token
+			switch {
+			case lenOf(bo.Y) && !lenOf(bo.X):
+				op = bo.Op
+			case lenOf(bo.X) && !lenOf(bo.Y):
+				op = map[token.Token]token.Token{token.LSS: token.GTR, token.LEQ: token.GEQ, token.GTR: token.LSS, token.GEQ: token.LEQ}[bo.Op]
+			default:
+				return
+			}
+			if op != token.LSS && op != token.LEQ && op != token.GTR && op != token.GEQ {
+				return
+			}
+			// the side on which the function answers at once (the element got out in part)
+			for _, r := range refsOf(bo) {
+				ifi, isIf := r.(*ssa.If)
+				if !isIf {
+					continue
+				}
+				tRet := terminalReturn(ifi.Block().Succs[0]) != nil
+				fRet := terminalReturn(ifi.Block().Succs[1]) != nil
+				if tRet == fRet {
+					continue
+				}
+				n++
+				con := fmt.Sprintf("%s: comparison #%d of what is left with the length of an element tells `in part` from `to its last byte`", c.FnName(fn), n)
+				// answers at once when remaining OP len: must be remaining < len (true side) or remaining >= len (false side)
+				strict := tRet && op == token.LSS || fRet && op == token.GEQ
+				if strict {
+					obs = append(obs, ok(R, con, c.InstrPos(bo), "the early answer is taken when what is left is less than the element"))
+				} else {
+					obs = append(obs, bad(R, con, c.InstrPos(bo), "the early answer is also taken when what is left equals the element's length: an element that got out to its last byte — a line with its line break — is treated as cut short, the line state says `mid-line`, and the caller's next write gets no prefix"))
+				}
+			}
+		})
+	}
+	if len(obs) == 0 {
+		obs = append(obs, ok(R, "short-write accounting", "-", "no function of pkg/indent answers with a line state from a comparison of a remaining count with an element's length"))
+	}
+	return obs
+}
